@@ -172,8 +172,22 @@ def make_inputs(interp: Interp, ctx: Ctx, c: dict) -> tuple[dict, dict]:
     return loc
 
 
+def _kf(interp, c, obname: str, term, old):
+    """Known findings: the obligation is proved restricted to inputs outside the listed class."""
+    classes = [k["class"] for k in c.get("known", []) if k["obligation"] == obname]
+    if not classes:
+        return term
+    neg = []
+    for cl in classes:
+        neg.append(z3.Not(_as_term(S.eval_clause(interp, c, cl, old, old, None))))
+    return z3.Implies(z3.And(*neg), term)
+
+
 def _run_path(interp: Interp, ctx: Ctx, c: dict, key: str, rep: FunctionReport):
     mod, qual = _split_key(key)
+    from . import models as _m0
+
+    _m0.fs_state(interp)
     loc = make_inputs(interp, ctx, c)
     old = S.snapshot(loc)
     ctx.inputs = dict(old)
@@ -182,6 +196,11 @@ def _run_path(interp: Interp, ctx: Ctx, c: dict, key: str, rep: FunctionReport):
         ctx.assume(_as_term(S.eval_clause(interp, c, clause, loc, old, None)))
     if not ctx.feasible():
         raise Abort("precondition infeasible on this case")
+    from .interp import _ghost_copy
+    from . import models as _models
+
+    _models.fs_state(interp)
+    interp.old_ghost = _ghost_copy(ctx.ghost)
     f = interp.make_ifunc(mod, qual)
     interp.loopspecs = c.get("loops", {})
     interp.entry_old = old
@@ -207,11 +226,11 @@ def _run_path(interp: Interp, ctx: Ctx, c: dict, key: str, rep: FunctionReport):
     rep.paths_returning += 1
     for etype, clause in c["raises"].items():
         t = S.eval_clause(interp, c, clause, old, old, None)
-        ctx.obligate(f"{qn}/raises-iff/{etype}", z3.Not(_as_term(t)), kind="raises", detail=f"returns normally although `{clause}`")
+        ctx.obligate(f"{qn}/raises-iff/{etype}", _kf(interp, c, f"{qn}/raises-iff/{etype}", z3.Not(_as_term(t)), old), kind="raises", detail=f"returns normally although `{clause}`")
     interp.old_env = None
     for name, clause in c["ensures"].items():
         t = S.eval_clause(interp, c, clause, loc, old, result)
-        ctx.obligate(f"{qn}/ensures/{name}", _as_term(t), kind="post", detail=clause)
+        ctx.obligate(f"{qn}/ensures/{name}", _kf(interp, c, f"{qn}/ensures/{name}", _as_term(t), old), kind="post", detail=clause)
     if c.get("frame"):
         _check_frame(interp, ctx, c, qn, loc, old)
 
@@ -222,11 +241,11 @@ def _check_raise(interp, ctx, c, qn, e: PyRaise, loc, old):
     for etype, clause in c["raises"].items():
         if exc_matches(e.etype, [etype]):
             t = S.eval_clause(interp, c, clause, old, old, None)
-            ctx.obligate(f"{qn}/raises/{etype}", _as_term(t), kind="raises", detail=f"raised {e.etype} ({e.msg}) outside `{clause}`")
+            ctx.obligate(f"{qn}/raises/{etype}", _kf(interp, c, f"{qn}/raises/{etype}", _as_term(t), old), kind="raises", detail=f"raised {e.etype} ({e.msg}) outside `{clause}`")
             return
     if exc_matches(e.etype, list(c.get("may_raise", ()))):
         return
-    ctx.obligate(f"{qn}/no-raise/{e.etype}", z3.BoolVal(False), kind="raises", detail=f"raises {e.etype}: {e.msg}")
+    ctx.obligate(f"{qn}/no-raise/{e.etype}", _kf(interp, c, f"{qn}/no-raise/{e.etype}", z3.BoolVal(False), old), kind="raises", detail=f"raises {e.etype}: {e.msg}")
 
 
 def _check_frame(interp, ctx, c, qn, loc, old):
@@ -264,7 +283,7 @@ def verify_lemma(name: str, *, tier="quick") -> FunctionReport:
     any_feasible = False
     while worklist:
         prefix = worklist.pop()
-        ctx = Ctx(prefix, oblig_timeout_ms=10000 if tier == "quick" else 60000)
+        ctx = Ctx(prefix, oblig_timeout_ms=l.get("timeout_ms") or (10000 if tier == "quick" else 60000))
         interp = Interp(ctx, S.REGISTRY, target_key=None)
         interp.current_contract = c
         rep.paths += 1
